@@ -21,7 +21,7 @@ PARTIAL = ["C04_projection (Props/Hist.lean) is proved for the simple SORT track
 
 
 def generate(rng, tier):
-    n, steps = {"quick": (30, 25), "thorough": (500, 50), "search": (150, 30)}.get(tier, (30, 25))
+    n, steps = {"quick": (70, 25), "thorough": (500, 50), "search": (150, 30)}.get(tier, (30, 25))
     cases = []
     for i in range(n):
         kind = KINDS[i % len(KINDS)]
